@@ -10,7 +10,7 @@
 #define C13_STATE_OK(st) ((((st) & C13_TS_MASK) <= 7) && (((st) & ~(C13_TS_MASK | C13_TS_CR)) == 0) && \
                           ((((st) & C13_TS_CR) == 0) || (((st) & C13_TS_MASK) == C13_TS_DATA)))
 #define C13_CR(st) (((st) & C13_TS_CR) ? 1 : 0)
-#define C13_SB_OK(ip) (0 <= (ip)->sb_pos && (ip)->sb_pos <= C13_SB_SIZE)
+#define C13_SB_OK(ip) (0 <= (ip)->sb_pos && (ip)->sb_pos < C13_SB_SIZE)
 /* text buffer cursors */
 #define C13_TXT(ip) (0 <= (ip)->text_start && (ip)->text_start <= (ip)->text_end && (ip)->text_end < C13_MAX_TEXT)
 /* offset of a pointer into ip->text, as an index of text[] */
@@ -25,5 +25,6 @@ extern long G_w;        /* witness exported by cmd_in_buf when it answers 1: ind
 extern long G_cap;   /* writable bytes behind `to` */
 extern int G_cr0;    /* CR_SEEN on entry */
 extern int G_applies, G_pushed;
-extern int G_out_calls; /* saturating counters of LPC call-backs / pushed arguments */
+extern int G_out_calls;
+extern int G_mc_hits, G_mc_calls; /* memchr stub: calls and non-NULL answers */ /* saturating counters of LPC call-backs / pushed arguments */
 #endif
